@@ -97,6 +97,25 @@ def work(run, part, parts):
         if tok.counter != counter or tok.start_time != counter * period or tok.expire_time != (counter + 1) * period:
             run.violation("C13|generate|validity-interval", f"counter/start/expire = {tok.counter}/{tok.start_time}/{tok.expire_time}, expected {counter}/{counter * period}/{(counter + 1) * period}",
                           w, rp)
+        if i % 5 == 0:
+            # the same object used again: another time, then given another key (cached state must follow the key)
+            try:
+                t2 = rng.randrange(0, 2 ** 31)
+                tok2 = otp.generate(t2).token
+                key2 = H.pw_bytes(rng, rng.randint(1, 64), "binary")
+                otp.key = key2
+                tok3 = otp.generate(t2).token
+                tok4 = TOTP(key=key2, format="raw", alg=alg, digits=digits, period=period).generate(t2).token
+            except Exception as e:
+                run.violation(f"C13|reuse|raises|{type(e).__name__}", f"second use of a TOTP object raised {type(e).__name__}: {str(e)[:100]}", w, rp)
+                continue
+            run.count("object_reuse")
+            run.case(("reuse", alg, digits), None)
+            if tok2 != ref_hotp(key, t2 // period, digits, alg):
+                run.violation("C13|reuse|second-generate-mismatch", f"second generate() on one object = {tok2}, RFC value {ref_hotp(key, t2 // period, digits, alg)}", dict(w, time2=t2), rp)
+            if tok3 != ref_hotp(key2, t2 // period, digits, alg) or tok3 != tok4:
+                run.violation("C13|reuse|rekeyed-object-mismatch", f"after otp.key = <new key> generate() = {tok3}, RFC value for the new key {ref_hotp(key2, t2 // period, digits, alg)}",
+                              dict(w, time2=t2, key2=key2), rp + f"\nt.key={key2!r}\nprint(t.generate({t2}).token)")
     # key spellings
     m = (3000 if run.tier == "quick" else 60000) // parts
     for i in range(m):
@@ -137,6 +156,7 @@ def body(run):
     run.parallel("checks.c13", "work", [dict(part=i, parts=P) for i in range(P)], timeout=900 if run.tier == "quick" else 3600)
     run.require("generate", 300000)
     run.require("key_spellings", 20000)
+    run.require("object_reuse", 10000)
     for k in ("aware", "naive", "float", "boundary", "boundary-1", "big"):
         run.require(f"kind:{k}", 100)
     run.assumptions += ["reference = RFC 4226 dynamic truncation over stdlib hmac, validated on the RFC 4226/6238 vectors at the start of every shard",
